@@ -228,6 +228,7 @@ func c02(r *core.Run) {
 	c02Comm(r)
 	c03GateSwap(r, "C02.SWAP")
 	c02VirtualView(r)
+	c02RenamerThreaded(r)
 	c02DeclOrder(r)
 	c02PhiOrder(r)
 	c02TripPolarity(r)
@@ -1189,4 +1190,55 @@ func keepWithoutSmall(p *core.Program, fn *ssa.Function, isSmall func(ssa.Value)
 		}
 	}
 	return wit != nil, wit, nRet
+}
+
+// c02RenamerThreaded: a symbolic expression is rendered for the canonical IR through StringWithRenamer, which
+// replaces source names by canonical ones and applies the literal policy. Every sub-expression must be rendered
+// the same way: a renderer that falls back to String() for one operand prints parameter names and raw literals.
+// Also decided: a recurrence prints its start before its step ({start, +, step}).
+func c02RenamerThreaded(r *core.Run) {
+	p := r.P
+	n := 0
+	for _, fn := range p.FuncsIn("pkg/analysis/loop") {
+		if fn.Name() != "StringWithRenamer" || fn.Signature.Recv() == nil {
+			continue
+		}
+		fnm := core.FuncName(fn)
+		core.InstrsOf(fn, func(in ssa.Instruction) {
+			c, ok := in.(*ssa.Call)
+			if !ok || !c.Call.IsInvoke() {
+				return
+			}
+			if !strings.HasSuffix(c.Call.Value.Type().String(), "loop.SCEV") {
+				return
+			}
+			n++
+			r.Check(c.Call.Method.Name() == "StringWithRenamer", "C02.NONAME", fnm+"#operand-rendered-with-renamer("+core.Canon(c.Call.Value)+")", in.Pos(), "the sub-expression is rendered through the renamer", "a sub-expression is rendered with "+c.Call.Method.Name()+"() instead of StringWithRenamer: source names of parameters and raw literals appear in the TripCount line, so renaming a parameter or replacing an abstracted literal changes the fingerprint")
+		})
+		// {start, +, step}
+		if strings.HasSuffix(core.Deref(fn.Signature.Recv().Type()).String(), "loop.SCEVAddRec") {
+			for _, ret := range core.Returns(fn) {
+				for _, o := range core.Origins(ret.Results[0]) {
+					c, ok := o.(*ssa.Call)
+					if !ok || core.CalleeName(&c.Call) != "fmt.Sprintf" {
+						continue
+					}
+					elems, _ := varargElems(c.Call.Args[1])
+					var order []string
+					for _, e := range elems {
+						if ic, isCall := core.Unwrap(e).(*ssa.Call); isCall && ic.Call.IsInvoke() {
+							if _, name, okF := fieldLoadBy(ic.Call.Value, func(types.Type) bool { return true }); okF {
+								order = append(order, name)
+							}
+						}
+					}
+					if len(order) >= 2 {
+						n++
+						r.Check(order[0] == "Start" && order[1] == "Step", "C02.NONAME", fnm+"#start-before-step", c.Pos(), "a recurrence is printed as {start, +, step}", "a recurrence is printed with "+strings.Join(order[:2], " before ")+": {2,+,3} and {3,+,2} exchange their renderings, so the IR describes another sequence than the loop runs")
+					}
+				}
+			}
+		}
+	}
+	r.Floor("C02.NONAME", "sub-expression renderings in the symbolic printers", n, 4)
 }
